@@ -493,7 +493,9 @@ def control_dependent_switches(f, target_bb, within=None):
         if t["k"] != "switch":
             continue
         ss = f.succs()[bb]
-        reach = [target_bb in f.reachable_from(s) for s in ss]
+        # reachability without coming back through the switch itself: in a loop the "other" side reaches the target only by
+        # re-evaluating the condition on a later iteration, which still makes the target control-dependent on it
+        reach = [target_bb in f.reachable_from(s, frozenset([bb])) for s in ss]
         if any(reach) and not all(reach):
             out.append(bb)
     return out
